@@ -702,7 +702,7 @@ pub fn property() -> Property {
             Box::new(Sub {
                 name: "constructions",
                 rule: "generated peg (rows 1..=8, cols 1..=14, wc 1..=4, any seed, --girth) and mackay-neal (rows 2..=10, cols 2..=20, tight and slack wr, both policies, min girth, backtracking, with and without --search over 1..=40 seeds) invocations: stdout equals the alist of the library result for the same arguments (for --search: for the seed printed on stderr, which must lie in range), failures give a non-zero status, 'no solution' only if the sequential oracle finds every seed failing; non-trivial = a matrix was produced",
-                cases: |t| t.pick(400, 20_000),
+                cases: |t| t.pick(1_500, 40_000),
                 strategy: con_strategy,
                 check: check_con,
                 health: &[],
@@ -710,7 +710,7 @@ pub fn property() -> Property {
             Box::new(Sub {
                 name: "systematic",
                 rule: "generated matrix files (C09 generator incl. rank-deficient, plus shapes with more rows than columns): stdout equals the alist of parity_to_systematic, or non-zero status + message and no panic when the library returns an error; non-trivial = converted",
-                cases: |t| t.pick(400, 20_000),
+                cases: |t| t.pick(1_500, 40_000),
                 strategy: sys_strategy,
                 check: check_sys,
                 health: &[("converted", 0.30), ("rejected", 0.15)],
@@ -718,7 +718,7 @@ pub fn property() -> Property {
             Box::new(Sub {
                 name: "encode",
                 rule: "generated systematic H (k >= 1), optional puncturing pattern dividing n, input file of 0..=5 complete words plus 0..k-1 trailing bytes: the output file is exactly the concatenation of the (punctured) codewords of the library encoder, nothing more; bad pattern, missing input, missing alist, pattern not dividing n: non-zero status, no panic; non-trivial = at least one word",
-                cases: |t| t.pick(500, 20_000),
+                cases: |t| t.pick(2_000, 40_000),
                 strategy: enc_strategy,
                 check: check_enc,
                 health: &[("punctured", 0.15), ("encode-fault", 0.10)],
@@ -726,7 +726,7 @@ pub fn property() -> Property {
             Box::new(Sub {
                 name: "ber",
                 rule: "tiny systematic H, Eb/N0 grid with binary-exact min/step (optionally max = last point + step/2), 1..=3 points, --frame-errors 3..=8, any of the 36 decoders, optional outer-code threshold 1 with LDPC-only file, optional puncturing / interleaving / 8PSK: exit 0, one result line per requested point in each output file with frame errors = requested (stop rule), bit errors within [min per frame error x frame errors, k x frames], false decodes <= frames, BER and FER equal to the ratios at the printed precision, k and N_cw in the header; missing alist, malformed pattern, unknown decoder: non-zero status, no panic; non-trivial = >= 2 points or outer code",
-                cases: |t| t.pick(150, 5_000),
+                cases: |t| t.pick(400, 8_000),
                 strategy: ber_strategy,
                 check: check_ber,
                 health: &[("points>=2", 0.40)],
